@@ -36,7 +36,7 @@ TYPES = {"flat": ["FLAT", "VMFS"], "kdmv": ["SPARSE"], "cowd": ["VMFSSPARSE"], "
 
 
 def budget(tier):
-    return 4000 if tier == "quick" else 20000
+    return 6000 if tier == "quick" else 20000
 
 
 @st.composite
